@@ -345,3 +345,83 @@ theorem filter_range_strictAsc : ∀ (n : Nat) (P : List Nat), P.Pairwise (· < 
       simp [hn]
 
 end Dx.Divs
+
+namespace Dx.Divs
+open Dx Dx.Parts
+
+theorem filter_range_le (c : Nat → Bool) (n m : Nat) (hnm : n ≤ m) (h : ∀ i, n ≤ i → c i = false) :
+    (List.range m).filter c = (List.range n).filter c := by
+  obtain ⟨k, rfl⟩ : ∃ k, m = n + k := ⟨m - n, by omega⟩
+  rw [List.range_add, List.filter_append]
+  have : ((List.range k).map (fun x => n + x)).filter c = [] := by
+    apply List.filter_eq_nil_iff.mpr
+    intro a ha
+    obtain ⟨x, _, rfl⟩ := List.mem_map.mp ha
+    simp [h (n + x) (by omega)]
+  rw [this, List.append_nil]
+
+theorem foldl_max_ge : ∀ (P : List Nat) (a : Nat), a ≤ P.foldl max a ∧ ∀ p ∈ P, p ≤ P.foldl max a := by
+  intro P
+  induction P with
+  | nil => intro a; exact ⟨Nat.le_refl _, fun p hp => by cases hp⟩
+  | cons x t ih =>
+    intro a
+    have ⟨h1, h2⟩ := ih (max a x)
+    simp only [List.foldl_cons]
+    refine ⟨by omega, ?_⟩
+    intro p hp
+    rcases List.mem_cons.mp hp with rfl | hp'
+    · omega
+    · exact h2 p hp'
+
+theorem sortedSet_eq (P : List Nat) (n : Nat) (h : ∀ p ∈ P, p < n) :
+    sortedSet P = (List.range n).filter (fun i => P.contains i) := by
+  unfold sortedSet
+  have hb := (foldl_max_ge P 0).2
+  have hout : ∀ m, (∀ p ∈ P, p < m) → ∀ i, m ≤ i → P.contains i = false := by
+    intro m hm i hi
+    cases hc : P.contains i with
+    | false => rfl
+    | true =>
+      have : i ∈ P := by simpa using hc
+      have := hm i this
+      omega
+  by_cases hle : P.foldl max 0 + 1 ≤ n
+  · exact (filter_range_le _ _ _ hle (hout _ (fun p hp => by have := hb p hp; omega))).symm
+  · exact filter_range_le _ _ _ (by omega) (hout n h)
+
+theorem lookup_zip_map (f : Nat → Nat) : ∀ (l : List Nat) (i : Nat), i ∈ l → (l.zip (l.map f)).lookup i = some (f i) := by
+  intro l
+  induction l with
+  | nil => intro i hi; cases hi
+  | cons a t ih =>
+    intro i hi
+    simp only [List.map_cons, List.zip_cons_cons, List.lookup_cons]
+    by_cases hia : i = a
+    · subst hia; simp
+    · have : (i == a) = false := by simpa using hia
+      rw [this]
+      rcases List.mem_cons.mp hi with h | h
+      · exact absurd h hia
+      · exact ih i h
+
+theorem lookupAll_map (f : Nat → Nat) (l : List Nat) : ∀ (P : List Nat), (∀ p ∈ P, p ∈ l) →
+    lookupAll l (l.map f) P = some (P.map f) := by
+  intro P
+  induction P with
+  | nil => intro _; rfl
+  | cons p t ih =>
+    intro h
+    simp [lookupAll, lookup_zip_map f l p (h p (List.mem_cons_self ..)),
+      ih (fun x hx => h x (List.mem_cons_of_mem _ hx))]
+
+/-- the fsspec reader's lengths under a valid selection (any order, repeats) are the selected lengths -/
+theorem pqLengths_valid (stats : List Nat) (P : List Nat) (h : ∀ p ∈ P, p < stats.length) :
+    pqLengths stats (some P) = some (trueLengths stats (some P)) := by
+  simp only [pqLengths, trueLengths, keepAt]
+  rw [sortedSet_eq P stats.length h]
+  apply lookupAll_map
+  intro p hp
+  simp [List.mem_filter, h p hp, hp]
+
+end Dx.Divs
